@@ -78,7 +78,7 @@ let spec_q nodes maxlevel paths =
   let rec go f next = function
     | [] -> Ok f
     | (k, n) :: r ->
-      (match scope_insert f k n (nat_of_int next) with
+      (match scope_insert k f n (nat_of_int next) with
        | Some f' -> go f' (next + 1) r
        | None ->
          let cls = if skips_level f k then "skip" else if duplicate_in_scope f k n then "dup" else "none" in
@@ -91,7 +91,7 @@ let spec_q nodes maxlevel paths =
       | [] -> List.rev acc
       | AOther :: r -> walk f next (enclosing f :: acc) r
       | ASym (k, n, _, _) :: r ->
-        (match scope_insert f k n (nat_of_int next) with
+        (match scope_insert k f n (nat_of_int next) with
          | Some f' -> walk f' (next + 1) (enclosing f' :: acc) r
          | None -> failwith "spec walk") in
     let encls = walk FNil 0 [] nodes in
